@@ -21,18 +21,18 @@ const (
 
 // Obligation is one (rule kind, instance) pair evaluated against /repo.
 type Obligation struct {
-	Property string   `json:"property"`
-	Clause   string   `json:"clause"`         // e.g. "C01.a"
-	Rule     string   `json:"rule"`           // rule kind, e.g. "each-iteration"
-	Key      string   `json:"key"`            // stable key: rule + construct (never a line number)
-	Desc     string   `json:"desc"`           // human readable statement of what must hold
-	Anchors  []string `json:"anchors"`        // resolved constructs the rule talks about
-	Sites    []string `json:"sites"`          // file:line of everything inspected
-	Status   Status   `json:"status"`
-	Message  string   `json:"message,omitempty"` // why violated / undecided
-	NonTrivial bool   `json:"nontrivial"`     // rule reasoned about >1 path / element / site
-	Tier     string   `json:"tier,omitempty"` // "thorough" if only evaluated in thorough tier
-	Known    string   `json:"known_finding,omitempty"`
+	Property   string   `json:"property"`
+	Clause     string   `json:"clause"`  // e.g. "C01.a"
+	Rule       string   `json:"rule"`    // rule kind, e.g. "each-iteration"
+	Key        string   `json:"key"`     // stable key: rule + construct (never a line number)
+	Desc       string   `json:"desc"`    // human readable statement of what must hold
+	Anchors    []string `json:"anchors"` // resolved constructs the rule talks about
+	Sites      []string `json:"sites"`   // file:line of everything inspected
+	Status     Status   `json:"status"`
+	Message    string   `json:"message,omitempty"` // why violated / undecided
+	NonTrivial bool     `json:"nontrivial"`        // rule reasoned about >1 path / element / site
+	Tier       string   `json:"tier,omitempty"`    // "thorough" if only evaluated in thorough tier
+	Known      string   `json:"known_finding,omitempty"`
 }
 
 // Report accumulates obligations for one property.
